@@ -290,6 +290,8 @@ def configs(tier):
         add("d2-streamport", "2w2r", decoupled=True)
         for s in ("incr2", "single-partial", "full-then-partial", "partial-then-full", "fixed2"):
             add("rmw-d2", s, rmw=True)
+        add("rmw-d2-base0x40", "single-partial", rmw=True, base_address=0x40)       # base bit inside the native address range
+        add("rmw-d2-base0x40", "full-then-partial", rmw=True, base_address=0x40)
     else:
         for s in SCEN:
             add("d2", s)
@@ -298,6 +300,8 @@ def configs(tier):
             add("d4", s, depth=4)
             add("rmw-d4", s, depth=4, rmw=True)
         add("d2-base0x40", "2w2r", base_address=0x40)
+        for s in ("incr4-strb", "narrow-incr4", "unaligned-incr2", "2w2r-overlap"):
+            add("rmw-d2-base0x40", s, rmw=True, base_address=0x40)
         add("d2-fastmem", "incr4-strb", wmin=1, rmin=1)
     # base address shifts the scenario's AXI addresses
     out = []
